@@ -1657,6 +1657,17 @@ def table_cell_fn(ctx: "Wtp", token: str) -> None:
             _parser_push(ctx, NodeKind.TABLE_ROW)
             break
         if node.kind == NodeKind.TABLE_CAPTION:
+            if (
+                token == "|"
+                and ctx.beginning_of_line
+                and ctx.begline_enabled
+            ):
+                # A cell at the beginning of a line ends the caption and
+                # starts the first row (its "|-" is optional), exactly as
+                # a header cell does in table_hdr_cell_fn()
+                _parser_pop(ctx, False)
+                _parser_push(ctx, NodeKind.TABLE_ROW)
+                break
             return text_fn(ctx, token)
         if node.kind == NodeKind.HTML:
             # Inside nested HTML, treat | and || as normal text
